@@ -432,3 +432,44 @@ func verifH_C20_mutation_pairs() {
 	verifExercise(data, false)
 	verifReach("end")
 }
+
+//verif:harness id=C20 tier=quick,thorough witness=end,loaded steps=20000000 depth=3000 bounds="heavy sharing: a chain of 36 component schemas in which each refers to the next from two places (two properties / allOf twice / items and additionalProperties / oneOf and anyOf / not and a property), i.e. 2^36 paths through the reference graph but 36 schemas; also the same with the last schema referring back to the first; load, validate, serialise, internalise, serialise: the work is bounded by the size of the document (the step budget), not by the number of paths"
+func verifH_C20_sharing() {
+	verifEntryPoint = 0
+	const n = 36
+	via := verifChoose("via", 5)
+	cyclic := verifChoose("cyclic", 2) == 1
+	name := func(i int) string { return "S" + string(rune('a'+i/10)) + string(rune('0'+i%10)) }
+	text := `{"openapi":"3.0.0","info":{"title":"t","version":"1"},"paths":{},"components":{"schemas":{`
+	for i := 0; i < n; i++ {
+		next := name(i + 1)
+		if i == n-1 {
+			if !cyclic {
+				text += `"` + name(i) + `":{"type":"string"}`
+				break
+			}
+			next = name(0)
+		}
+		r := `{"$ref":"#/components/schemas/` + next + `"}`
+		var body string
+		switch via {
+		case 0:
+			body = `{"type":"object","properties":{"l":` + r + `,"r":` + r + `}}`
+		case 1:
+			body = `{"allOf":[` + r + `,` + r + `]}`
+		case 2:
+			body = `{"type":"object","items":` + r + `,"additionalProperties":` + r + `}`
+		case 3:
+			body = `{"oneOf":[` + r + `],"anyOf":[` + r + `]}`
+		case 4:
+			body = `{"type":"object","not":` + r + `,"properties":{"p":` + r + `}}`
+		}
+		text += `"` + name(i) + `":` + body + `,`
+	}
+	if cyclic {
+		text = text[:len(text)-1]
+	}
+	text += `}}}`
+	verifExercise([]byte(text), false)
+	verifReach("end")
+}
